@@ -1071,6 +1071,15 @@ class Config:  # pylint: disable=too-many-instance-attributes
                 return value
 
         if isinstance(value, Config):
+            if isinstance(field, Schema):
+                expected: Optional[Schema] = field
+            else:
+                expected = getattr(getattr(field, "config_type", None), "__schema__", None)
+            if expected is not None and value._schema is not expected:
+                # none of the declared fields' constraints would hold for it
+                raise ValidationError(
+                    self, field, "configuration object was built from another schema"
+                )
             value._parent = self
             value._key = key
         elif isinstance(value, dict) and isinstance(field, (Schema, ConfigTypeField)):
